@@ -172,6 +172,8 @@ pub fn encode_full<W: Write + Seek>(
                         }
                     }
                     if !finalize {
+                        unfinalized_reached();
+                        drop(wr.into_inner());
                         return Ok(());
                     }
                     wr.into_inner().finalize().map_err(|e| EncErr::Finalize(e.to_string()))
@@ -196,6 +198,8 @@ pub fn encode_full<W: Write + Seek>(
                 off += n;
             }
             if !finalize {
+                unfinalized_reached();
+                drop(wr.into_inner());
                 return Ok(());
             }
             wr.into_inner().finalize().map_err(|e| EncErr::Finalize(e.to_string()))
@@ -213,6 +217,8 @@ pub fn encode_full<W: Write + Seek>(
                 off += n;
             }
             if !finalize {
+                unfinalized_reached();
+                drop(wr.into_inner());
                 return Ok(());
             }
             wr.into_inner().finalize().map_err(|e| EncErr::Finalize(e.to_string()))
@@ -388,6 +394,28 @@ fn meta_of<M: Metadata>(m: &M) -> DecOut {
 
 /// Like `decode_with` but discards the samples (only counts them), so that the memory measured
 /// around the call is the decoder's own and not the accumulated output.
+thread_local! {
+    static UNFINALIZED_HOOK: std::cell::RefCell<Option<Box<dyn FnMut()>>> = const { std::cell::RefCell::new(None) };
+}
+
+/// Runs `f` with `hook` installed: `encode_full(.., finalize = false)` calls the hook once every
+/// write call has returned and before the writer is dropped. (The crate's writers finalize when
+/// dropped; leaking them instead, as is done after a failed write, costs their buffers on every
+/// case. So whoever needs the pre-finalize state of the sink takes it in the hook.)
+pub fn with_unfinalized_hook<T>(hook: Box<dyn FnMut()>, f: impl FnOnce() -> T) -> T {
+    UNFINALIZED_HOOK.with(|h| *h.borrow_mut() = Some(hook));
+    let r = f();
+    UNFINALIZED_HOOK.with(|h| *h.borrow_mut() = None);
+    r
+}
+
+fn unfinalized_reached() {
+    let hook = UNFINALIZED_HOOK.with(|h| h.borrow_mut().take());
+    if let Some(mut hk) = hook {
+        hk();
+    }
+}
+
 /// how many more times `drain_with` calls a reader after its first error (results ignored)
 const AFTER_ERROR_CALLS: usize = 2;
 
